@@ -260,3 +260,56 @@ def cfg_of(func) -> CFG:
         c = CFG(func.node)
         _CACHE[id(func.node)] = c
     return c
+
+
+def events_per_iteration(cfg: CFG, loop_stmt: ast.AST, classify: Callable[[int], Optional[int]],
+                         n_events: int, cap: int = 2) -> Set[Tuple[int, ...]]:
+    """Abstract interpretation over the CFG of one iteration of ``loop_stmt`` (a For/While).
+
+    ``classify(node)`` returns the index of the event a CFG node performs (or None).  The result is
+    the set of possible event-count tuples (saturating at ``cap``) over all paths that start when
+    the loop takes an element and end when control comes back to the loop header or leaves the
+    loop (break / return / raise excluded: ``raise`` paths are dropped, return/break paths kept)."""
+    h = cfg.node(loop_stmt)
+    if h is None:
+        raise ValueError("loop statement has no CFG node")
+    body_nodes = cfg.stmts_in_loop(loop_stmt)
+    zero = tuple(0 for _ in range(n_events))
+    state: Dict[int, Set[Tuple[int, ...]]] = {}
+    results: Set[Tuple[int, ...]] = set()
+    work: List[int] = []
+
+    def push(n: int, vals: Set[Tuple[int, ...]]):
+        cur = state.setdefault(n, set())
+        new = vals - cur
+        if new:
+            cur |= new
+            work.append(n)
+
+    for s in cfg.g.successors(h):
+        labs = cfg.labels(h, s)
+        if "iter" in labs or "true" in labs:
+            if s in body_nodes:
+                push(s, {zero})
+    while work:
+        n = work.pop()
+        vals = state[n]
+        ev = classify(n)
+        if ev is not None:
+            out = set()
+            for v in vals:
+                lst = list(v)
+                lst[ev] = min(cap, lst[ev] + 1)
+                out.add(tuple(lst))
+        else:
+            out = set(vals)
+        for s in cfg.g.successors(n):
+            if s == h:
+                results |= out
+            elif s == cfg.raise_exit:
+                continue
+            elif s not in body_nodes:
+                results |= out          # break / return out of the loop
+            else:
+                push(s, out)
+    return results
